@@ -9,9 +9,10 @@ root = os.path.dirname(here)
 props = [json.loads(l) for l in open(os.path.join(root, 'properties.jsonl'))]
 checks = []
 na = []
+enabled = set(open(os.path.join(here, 'enabled.txt')).read().split())
 for p in props:
     pid = p['id']
-    if pid in CHECKS:
+    if pid in CHECKS and pid in enabled:
         c = CHECKS[pid]
         lt = LEVEL_TEXT.get(pid, {})
         checks.append({
